@@ -24,7 +24,7 @@ from hypothesis import strategies as st
 from vp.harness import pcode_gen as G
 
 NAMES = ["A", "B", "C"]
-ALLOWED_KINDS = {"mark", "quick", "wait", "block", "macro", "callmacro", "watch", "alarm", "blank", "comment"}
+ALLOWED_KINDS = {"mark", "quick", "wait", "block", "macro", "callmacro", "watch", "alarm", "blank", "comment", "endblock"}
 WATCH_COND = {"tag": "In2", "op": ">=", "val": 0, "unit": None}     # inputs are 0: true from the first evaluation
 
 
@@ -100,16 +100,80 @@ def _interrupt_recursion(draw):
 
 
 @st.composite
+def _macro_ending_block(draw):
+    """a macro whose last line is `End block`, called from lines of top-level Blocks (the Block ends with the call, the rest
+    of the Block is skipped) and from the top level (nothing to end), several times"""
+    order = list(draw(st.permutations(NAMES)))
+    m, helper = order[0], order[1]
+    body = []
+    use_helper = draw(st.booleans())
+    if use_helper:
+        body.append({"k": "macro", "t": None, "name": helper, "c": [_leaf("mark")]})
+    items = [_leaf(draw(st.sampled_from(["mark", "mark", "quick"]))) for _ in range(draw(st.integers(1, 3)))]
+    if use_helper and draw(st.booleans()):
+        items.insert(draw(st.integers(0, len(items))), _leaf("callmacro", name=helper))
+    items.append(_leaf("endblock"))
+    body.append({"k": "macro", "t": None, "name": m, "c": items})
+    for _ in range(draw(st.integers(2, 4))):
+        r = draw(st.integers(0, 3))
+        if r <= 1:
+            ch = [_leaf("mark")] if draw(st.booleans()) else []
+            ch.append(_leaf("callmacro", name=m))
+            ch.extend(_leaf("mark") for _ in range(draw(st.integers(0, 2))))
+            body.append({"k": "block", "t": None, "c": ch, "end": "endblock", "end_t": None})
+        elif r == 2:
+            body.append(_leaf("callmacro", name=m))
+        else:
+            body.append(_leaf("mark"))
+        if draw(st.booleans()):
+            body.append(_leaf("mark"))
+    body.append(_leaf("callmacro", name=m))
+    body.append(_leaf("mark"))
+    return body
+
+
+@st.composite
+def _redefinition_in_flight(draw):
+    """a macro is re-defined while one of its calls is in progress (the `Macro:` line sits in its own body or in the body of
+    a macro it calls), then called again: the later calls run the new body"""
+    order = list(draw(st.permutations(NAMES)))
+    a, b = order[0], order[1]
+    nested = {"k": "macro", "t": None, "name": a, "c": [_leaf(draw(st.sampled_from(["mark", "quick"]))) for _ in range(draw(st.integers(1, 2)))]}
+    body = []
+    pre = [_leaf("mark") for _ in range(draw(st.integers(0, 2)))]
+    post = [_leaf("mark") for _ in range(draw(st.integers(0, 2)))]
+    if draw(st.booleans()):
+        body.append({"k": "macro", "t": None, "name": a, "c": pre + [nested] + post + ([] if pre or post else [_leaf("mark")])})
+    else:
+        body.append({"k": "macro", "t": None, "name": b, "c": [_leaf("mark"), nested] + ([_leaf("mark")] if draw(st.booleans()) else [])})
+        body.append({"k": "macro", "t": None, "name": a, "c": pre + [_leaf("callmacro", name=b)] + post})
+    body.append(_leaf("mark"))
+    for _ in range(draw(st.integers(2, 3))):
+        if draw(st.integers(0, 3)) == 0:
+            body.append({"k": "block", "t": None, "c": [_leaf("callmacro", name=a)], "end": "endblock", "end_t": None})
+        else:
+            body.append(_leaf("callmacro", name=a))
+        if draw(st.booleans()):
+            body.append(_leaf("mark"))
+    body.append(_leaf("mark"))
+    return body
+
+
+@st.composite
 def programs(draw, max_top: int = 9, max_body: int = 4):
     """flavor 'dag'   : a body only calls alphabetically lower names that are already defined (no cycles, no undefined
                         calls); redefinitions are frequent;
     flavor 'noself': a body calls any other name (cycles of length 2-3, closing call first / later / nested in a block);
     flavor 'free'  : any name anywhere (self recursion, calls before definition)."""
-    flavor = draw(st.sampled_from(["dag", "dag", "dag", "noself", "noself", "noself", "free", "intrec"]))
+    flavor = draw(st.sampled_from(["dag", "dag", "dag", "noself", "noself", "noself", "free", "intrec", "endblk", "redef-in-flight"]))
     defined: list = []
     body = []
     if flavor == "intrec":
         return {"base": None, "body": draw(_interrupt_recursion()), "flavor": flavor}
+    if flavor == "endblk":
+        return {"base": None, "body": draw(_macro_ending_block()), "flavor": flavor}
+    if flavor == "redef-in-flight":
+        return {"base": None, "body": draw(_redefinition_in_flight()), "flavor": flavor}
 
     def callable_for(name):
         if flavor == "dag":
@@ -189,9 +253,19 @@ def valid_tree(tree) -> bool:
                 return False
             k = n["k"]
             if k == "macro":
+                if where == "macro":
+                    # a definition nested in a macro body (re-definition while a call is in progress): marks / commands only
+                    if n.get("name") not in NAMES or not n.get("c") or not isinstance(n["c"], list) or \
+                            any((not isinstance(c, dict)) or c.get("k") not in ("mark", "quick") or c.get("t") is not None for c in n["c"]):
+                        return False
+                    continue
                 if where != "top" or n.get("name") not in NAMES or not n.get("c") or not ok(n["c"], "macro"):
                     return False
                 if all(c["k"] in ("blank", "comment") for c in n["c"]):
+                    return False
+            elif k == "endblock":
+                # explicit End block: only as the last line of a macro body (it ends the Block the macro is called from)
+                if where != "macro" or n is not nodes[-1]:
                     return False
             elif k == "callmacro":
                 if n.get("name") not in NAMES:
@@ -262,8 +336,8 @@ def records(tree) -> list:
                 out.append(recs[i])
                 i += 1
             k += 1
-            steps = sim.watch_steps.get(r["id"], 1)
-            d = round(0.2 * steps + 1.0, 1)
+            # long enough for the whole body, the Waits inside the macros it calls included (25 % and 1 s of margin)
+            d = round(0.1 * 1.25 * sim.watch_ticks.get(r["id"], 5) + 1.0, 1)
             out.append({"id": "w%d" % k, "text": "    " * r["depth"] + "Wait: %ss" % G._fmt(d), "kind": "wait", "payload": None,
                         "depth": r["depth"], "name": None, "d": d, "sync": True})
     return out
@@ -294,6 +368,10 @@ class _Stop(Exception):
     pass
 
 
+class _EndBlock(Exception):
+    """an End block executed as the last line of a macro that was called directly from a Block"""
+
+
 class Sim:
     def __init__(self):
         self.steps: list = []          # dicts: line, kind, eff, resolved (def id for calls), stack (tuple of def ids)
@@ -304,9 +382,12 @@ class Sim:
         self.cycle_in_watch = False    # the failing call chain runs in a Watch body (the main thread is not part of it)
         self.cycle_via_interrupt = False   # the chain passes a Watch/Alarm inside a macro body: only the first (static)
         #                                    failure point has a well-defined trace, later ones are accepted by line only
+        self.block_ended_by_macro = False
+        self.nested_def_executed = False
         self.unjudged_at = None        # step index where a Watch/Alarm inside a macro body starts outside any recursive chain
         self.ticks = 0.0
         self.watch_steps: dict = {}
+        self.watch_ticks: dict = {}    # model ticks spent in the body of a Watch (2 per line + the Waits it runs)
         self.defs: list = []           # ids of all Macro lines (textual order)
         self.def_name: dict = {}
         self.calls_resolved: dict = {}  # name -> list of def ids in call order (completed model calls)
@@ -326,7 +407,7 @@ def _calls_in(node, nested=False):
     for ch in node["children"]:
         if ch["rec"]["kind"] == "callmacro":
             out.append((ch, True, False))
-        elif ch["children"]:
+        elif ch["children"] and ch["rec"]["kind"] != "macro":
             for sub, intr in _all_calls(ch, ch["rec"]["kind"] in ("watch", "alarm")):
                 out.append((sub, False, intr))
     return out
@@ -337,7 +418,8 @@ def _all_calls(node, intr=False):
     for ch in node["children"]:
         if ch["rec"]["kind"] == "callmacro":
             out.append((ch, intr))
-        out.extend(_all_calls(ch, intr or ch["rec"]["kind"] in ("watch", "alarm")))
+        if ch["rec"]["kind"] != "macro":      # a macro defined in the body is a definition, not a call
+            out.extend(_all_calls(ch, intr or ch["rec"]["kind"] in ("watch", "alarm")))
     return out
 
 
@@ -388,18 +470,54 @@ def simulate(recs, sync: bool = True) -> Sim:
         sim.ticks += 2 + (rec["d"] * 10 if rec["kind"] == "wait" else 0)
         return len(sim.steps) - 1
 
-    def run(nodes, stack_names, stack_defs, blocks=0):
-        """blocks = number of Blocks open on the dynamic path (the caller's included)"""
+    executed_nested_defs: set = set()
+    call_sites: list = []     # context ('top' | 'block' | 'macro' | 'watch') of the call line of every open invocation
+
+    def unjudged():
+        sim.unjudged_at = len(sim.steps)
+        raise _Stop()
+
+    def run(nodes, stack_names, stack_defs, blocks=0, ctx="top", owner="top"):
+        """blocks = number of Blocks open on the dynamic path (the caller's included); ctx = what the lines belong to
+        dynamically (top | block | watch | macro); owner = kind of the line that owns `nodes`"""
         for n in nodes:
             r = n["rec"]
             k = r["kind"]
+            if k == "endblock" and owner == "macro":
+                # explicit End block at the end of a macro body.  Judged in two situations only (everything else is left alone:
+                # the statement does not say what the rest of a cut-short call chain does): the macro was called from the top
+                # level with no Block open (nothing to end), or directly from a line of a top-level Block (ends that Block: the
+                # rest of the Block is skipped)
+                step(r, stack=stack_defs, blocks=blocks)
+                if n is not nodes[-1]:
+                    unjudged()
+                if len(call_sites) == 1 and blocks == 0 and call_sites[0] in ("top", "watch"):
+                    continue
+                if len(call_sites) == 1 and blocks == 1 and call_sites[0] == "block" and not in_watch[0]:
+                    raise _EndBlock()
+                unjudged()
+            if k == "macro" and owner == "macro":
+                # definition nested in a macro body: registered when the line runs.  The engine registers a definition node once
+                # per method version; what a second execution of the line means is not stated, so judging stops there.
+                if r["id"] in executed_nested_defs:
+                    unjudged()
+                executed_nested_defs.add(r["id"])
+                sim.nested_def_executed = True
+                table[r["name"]] = n
+                step(r, stack=stack_defs, blocks=blocks)
+                continue
             if k == "mark":
                 step(r, ("mark", r["payload"]), stack=stack_defs, blocks=blocks)
             elif k == "quick":
                 step(r, ("cmd", r["payload"]), stack=stack_defs, blocks=blocks)
             elif k == "block":
                 step(r, ("block", r["payload"]), stack=stack_defs, blocks=blocks)
-                run(n["children"], stack_names, stack_defs, blocks + 1)
+                try:
+                    run(n["children"], stack_names, stack_defs, blocks + 1, "block" if ctx == "top" else ctx, "block")
+                except _EndBlock:
+                    if ctx != "top":
+                        raise
+                    sim.block_ended_by_macro = True
             elif k == "macro":
                 table[r["name"]] = n
                 step(r, stack=stack_defs, blocks=blocks)
@@ -414,12 +532,14 @@ def simulate(recs, sync: bool = True) -> Sim:
                     sim.cycle_via_interrupt = True
                 step(r, stack=stack_defs, blocks=blocks)
                 before = len(sim.steps)
+                ticks_before = sim.ticks
                 sim.ticks += 3
                 was = in_watch[0]
                 in_watch[0] = True
-                run(n["children"], stack_names, stack_defs, blocks)
+                run(n["children"], stack_names, stack_defs, blocks, "watch" if ctx == "top" else ctx, "watch")
                 in_watch[0] = was
                 sim.watch_steps[r["id"]] = len(sim.steps) - before
+                sim.watch_ticks[r["id"]] = sim.ticks - ticks_before
             elif k == "callmacro":
                 idx = step(r, stack=stack_defs, blocks=blocks)
                 name = r["name"]
@@ -444,7 +564,16 @@ def simulate(recs, sync: bool = True) -> Sim:
                         else:
                             sim.cycle_cls = "interrupt-call"    # only through a call in a Watch/Alarm body inside a macro
                 sim.steps[idx]["resolved"] = d["rec"]["id"]
-                run(d["children"], stack_names + [name], stack_defs + [d["rec"]["id"]], blocks)
+                call_sites.append(ctx)
+                try:
+                    run(d["children"], stack_names + [name], stack_defs + [d["rec"]["id"]], blocks, "macro", "macro")
+                except _EndBlock:
+                    # the call ends with the Block it sits in; it still was one complete run of the body
+                    sim.steps[idx]["done"] = len(sim.steps)
+                    sim.calls_resolved.setdefault(name, []).append(d["rec"]["id"])
+                    raise
+                finally:
+                    call_sites.pop()
                 sim.steps[idx]["done"] = len(sim.steps)
                 sim.calls_resolved.setdefault(name, []).append(d["rec"]["id"])
             else:   # wait, blank, comment, endblock
@@ -478,7 +607,7 @@ def _def_span(recs, i):
 def apply_edit(recs, ed: dict, k: int):
     """-> (new_recs, info) ; info = {kind (effective), def: id of the targeted Macro line or None}"""
     recs = copy.deepcopy(recs)
-    def_idx = [i for i, r in enumerate(recs) if r["kind"] == "macro"]
+    def_idx = [i for i, r in enumerate(recs) if r["kind"] == "macro" and r["depth"] == 0]
     kind = ed["kind"]
     if kind == "comment" or not def_idx:
         recs.append({"id": "x%d" % k, "text": "# e%d" % k, "kind": "comment", "payload": None, "depth": 0, "name": None, "d": 0.0})
